@@ -11,6 +11,7 @@ fn main() {
     let code = match engine {
         "kv" => mcv::kv::run(&ctx),
         "quiet" => mcv::kv::run_c19(&ctx),
+        "lin" => mcv::lin::run(&ctx),
         "frame" => mcv::frame::run_c09(&ctx),
         "hostile" => mcv::frame::run_c10(&ctx),
         _ => {
